@@ -9,7 +9,10 @@ From VQ Require Import Proofs.EinopsProofs.
 From VQ Require Import Glue.EinopsGlueMore.
 From VQ Require Import Glue.Pin_fp_C10.
 From VQ Require Import Proofs.EinopsRepeat.
+From VQ Require Import Model.Strides Proofs.StridesProofs Glue.Pin_inv_view_writes.
 Import ListNotations.
+
+(* implicit *)
 
 (* implicit *)
 
@@ -545,3 +548,35 @@ Theorem C10_repeat_covers_input :
        in_range e (lhs p) i -> exists o : list nat, in_range e (rhs p) o /\ index_map p e o = i.
 Proof. exact (@EinopsRepeat.repeat_covers_input). Qed.
 Print Assumptions C10_repeat_covers_input.
+
+Theorem C10_reshape_write_lands_when_contiguous :
+  forall (A : Type) (zero : A) (b n d : nat) (m : storage A) (rows : nat -> bool) (i j k : nat),
+       i < b ->
+       j < n ->
+       k < d ->
+       get A (write_through_reshape A zero m (contiguous b n d) rows) (contiguous b n d) i j k =
+       where_rows A zero m (contiguous b n d) rows i j k.
+Proof. exact (@StridesProofs.contiguous_write_lands). Qed.
+Print Assumptions C10_reshape_write_lands_when_contiguous.
+
+Theorem C10_reshape_write_lost_on_permuted_view :
+  forall (A : Type) (zero : A) (b n d : nat) (m : storage A) (rows : nat -> bool),
+       2 <= b -> 2 <= n -> 1 <= d -> write_through_reshape A zero m (batch_permuted b n d) rows = m.
+Proof. exact (@StridesProofs.permuted_write_is_lost). Qed.
+Print Assumptions C10_reshape_write_lost_on_permuted_view.
+
+Theorem C10_write_through_reshape_refuted :
+  forall (A : Type) (zero one : A),
+       one <> zero ->
+       exists (t : t3) (m : storage A) (rows : nat -> bool) (i j k : nat),
+         i < nb t /\
+         j < nn t /\
+         k < nd t /\
+         get A (write_through_reshape A zero m t rows) t i j k <> where_rows A zero m t rows i j k.
+Proof. exact (@StridesProofs.write_through_reshape_refuted). Qed.
+Print Assumptions C10_write_through_reshape_refuted.
+
+Theorem C10_tie_no_new_write_through_view_handles :
+  inv_view_writes.inv_view_writes = pinned_inv_view_writes.
+Proof. exact (@Pin_inv_view_writes.pin_inv_view_writes). Qed.
+Print Assumptions C10_tie_no_new_write_through_view_handles.
